@@ -10,8 +10,8 @@ import (
 	"sync/atomic"
 	"time"
 
-	pb "github.com/ipfs/boxo/ipld/unixfs/pb"
 	"github.com/gogo/protobuf/proto"
+	pb "github.com/ipfs/boxo/ipld/unixfs/pb"
 	"github.com/ipfs/go-unixfsnode/data"
 	"github.com/ipfs/go-unixfsnode/data/builder"
 	"google.golang.org/protobuf/encoding/protowire"
